@@ -68,6 +68,11 @@ def run(ck):
         cases.append({"mode": "image", "N": N, "profile": T, "truth_profile": truth, "params": p, "snr": rng.choice([5, 30, 100, 1e4]) if i else 100,
                       "mask": (rng.random() < 0.4) if i else True, "sky": rng.choice(["none", "flat", "tilted-plane"]), "negative": (i % 5 == 4), "ndraw": 60 if quick else 1000,
                       "seed": rng.randint(0, 10**6)})
+    for j_ in range(2 if quick else 6):
+        N = 40
+        cases.append({"mode": "image", "N": N, "profile": PROFILES[(j_ * 3 + ck.seed) % 7], "truth_profile": "pointsource", "params": {"xc": 20.0, "yc": 20.0, "flux": 1e-3},
+                      "snr": 1e-3, "offset": [-0.5, -0.1, 0.0][j_ % 3], "mask": bool(j_ % 2), "sky": ["none", "flat", "tilted-plane"][j_ % 3], "negative": True, "ndraw": 30,
+                      "seed": rng.randint(0, 10**6)})
     ck.log("implementation: %d cases (table / multi / image)" % len(cases))
     import concurrent.futures as cf
     nsh = min(6, vlib.NCPU)
